@@ -35,9 +35,9 @@ def scratch(apply_fn):
     return d, repo, ok, why
 
 
-def run_check(repo, pid):
+def run_check(repo, pid, tag='scratch'):
     env = dict(os.environ, GBSA_REPO=repo, VERIF_TIER='quick', GBSA_EVIDENCE_DIR=os.path.join(os.path.dirname(repo), 'ev'),
-               GBSA_REPLAY_DIR=os.path.join(os.path.dirname(repo), 'replay'))
+               GBSA_REPLAY_DIR=os.path.join(os.path.dirname(repo), 'replay'), GBSA_TAG=tag)
     p = subprocess.run([sys.executable, '-m', 'gbsa.check', pid], cwd=VERIF, env=env, capture_output=True, text=True)
     return p.returncode, p.stdout + p.stderr
 
@@ -126,34 +126,58 @@ def main(argv, quiet=False):
     bad = 0
     t0 = time.time()
     results = []
-    for (kind, name), lst in sorted(groups.items()):
-        d, repo, ok, why = scratch(lst[0]['apply'])
+    # the cases are independent (one scratch copy each): run several at a time, each worker with its own fact-cache
+    # namespace so that the exports do not wait for each other
+    import concurrent.futures, queue, threading
+    jobs = max(1, min(int(os.environ.get('GBSA_SELFTEST_JOBS', '6')), len(groups) or 1))
+    tags = queue.Queue()
+    for i in range(jobs):
+        tags.put('scratch' if i == 0 else 'scratch%d' % i)
+    lock = threading.Lock()
+
+    def one(item):
+        (kind, name), lst = item
+        tag = tags.get()
+        lines, res, nbad = [], [], 0
+        d = None
         try:
+            d, repo, ok, why = scratch(lst[0]['apply'])
             if not ok:
                 # a fix whose revert no longer applies cleanly (later commits touched the same lines) is skipped, loudly
-                print('[selftest] %-8s %-44s SKIPPED: does not apply to the current tree (%s)' % (kind, name, why[:80]))
-                results.append({'kind': kind, 'name': name, 'status': 'skipped', 'why': why[:200]})
-                continue
+                lines.append('[selftest] %-8s %-44s SKIPPED: does not apply to the current tree (%s)' % (kind, name, why[:80]))
+                res.append({'kind': kind, 'name': name, 'status': 'skipped', 'why': why[:200]})
+                return lines, res, nbad
             for c in lst:
-                rc, out = run_check(repo, c['pid'])
+                rc, out = run_check(repo, c['pid'], tag)
                 hit = True
                 if c['expect'] == 1 and c['rules']:
                     hit = any(re.search(r'rule=%s\b' % re.escape(r), out) for r in c['rules'])
                 good = (rc == c['expect']) and hit and (('VIOLATION property=%s' % c['pid']) in out) == (c['expect'] == 1)
                 status = 'ok' if good else 'FAILED'
                 if not good:
-                    bad += 1
-                print('[selftest] %-8s %-44s %s expect exit %d%s -> exit %d %s'
-                      % (kind, name[:44], c['pid'], c['expect'], (' rule ' + '/'.join(c['rules'])) if c['rules'] else '', rc,
-                         status))
+                    nbad += 1
+                lines.append('[selftest] %-8s %-44s %s expect exit %d%s -> exit %d %s'
+                             % (kind, name[:44], c['pid'], c['expect'],
+                                (' rule ' + '/'.join(c['rules'])) if c['rules'] else '', rc, status))
                 if not good:
                     for ln in out.splitlines():
                         if 'rule=' in ln or 'ANALYSIS-ERROR' in ln or 'Traceback' in ln:
-                            print('            ' + ln[:240])
-                results.append({'kind': kind, 'name': name, 'property': c['pid'], 'expect': c['expect'], 'exit': rc,
-                                'status': status})
+                            lines.append('            ' + ln[:240])
+                res.append({'kind': kind, 'name': name, 'property': c['pid'], 'expect': c['expect'], 'exit': rc,
+                            'status': status})
+            return lines, res, nbad
         finally:
-            shutil.rmtree(d, ignore_errors=True)
+            if d:
+                shutil.rmtree(d, ignore_errors=True)
+            tags.put(tag)
+    with concurrent.futures.ThreadPoolExecutor(max_workers=jobs) as ex:
+        for lines, res, nbad in ex.map(one, sorted(groups.items())):
+            with lock:
+                for ln in lines:
+                    print(ln)
+                sys.stdout.flush()
+                results.extend(res)
+                bad += nbad
     print('[selftest] %d cases, %d failed, %.0fs' % (len(results), bad, time.time() - t0))
     os.makedirs(os.path.join(VERIF, '.cache'), exist_ok=True)
     with open(os.path.join(VERIF, '.cache', 'selftest-%s.json' % ('-'.join(props) or 'all')), 'w') as fh:
